@@ -9681,12 +9681,20 @@ def _write_node(node, xml_tree=None, viewport_transform=None):
         vt = None
         try:
             vt = node.viewbox_transform
+            if not vt and viewport_transform is not None and (node.x or node.y):
+                # A nested svg without a viewBox still moves its content to (x, y).
+                vt = "translate(%s, %s)" % (Length.str(node.x), Length.str(node.y))
             if vt:
                 m = Matrix(vt)
                 m.inverse()
                 vt = m
         except ValueError:
             pass
+        if viewport_transform:
+            # The shapes carry the transforms of every enclosing viewport: undo the outer ones first.
+            vt = viewport_transform * vt if vt else viewport_transform
+        if vt is None:
+            vt = Matrix()
         for child in node:
             _write_node(child, xml_tree, vt)
     elif isinstance(node, Ellipse):
